@@ -78,6 +78,10 @@ class Run:
     # -- outcomes
     def violation(self, key, what, replay):
         '''a counterexample that reproduced on the real code'''
+        if 'SArray' in what or 'symx.' in what or 'SReal(' in what or 'SInt(' in what:
+            # an exception that mentions the symbolic array classes comes from the engine (e.g. a symbolic value cached on an interned nutils node by an
+            # earlier case of the same worker), not from nutils: inconclusive, never a violation
+            self.unconfirmed(key, 'engine artefact (symbolic object leaked into a concrete run): ' + what[:300]); return
         if key in self.known:
             if key not in self.known_hit:
                 self.known_hit.append(key)
